@@ -321,6 +321,8 @@ PROPS = {
             B("w_bulk.cpp", "find_if", quick=8, thorough=120, oracles=["c17."] + RT_ALL),
             B("w_bulk.cpp", "find_if", cfg="S17r", quick=5, thorough=60, oracles=["c17."] + RT_ALL),
             B("w_bulk.cpp", "bulk", cfg="S17r", quick=4, thorough=60, oracles=["c17."] + RT_ALL),
+            B("w_bulk.cpp", "find_if", params="parsched=1", quick=5, thorough=90, oracles=["c17."] + RT_ALL),
+            B("w_bulk.cpp", "bulk", params="parsched=1", quick=4, thorough=60, oracles=["c17."] + RT_ALL),
         ],
         level_text=("Seeded runs of bulk_join(bulk_transform(bulk_schedule(sched, n), f, policy)) with n drawn from {0, 1, 2, around the "
                     "cancellation chunk size 15/16/17, 31-33, 47-49, 64, 100, random < 130, 100-1100}, all four execution policies, inline / "
@@ -329,7 +331,7 @@ PROPS = {
                     "zones, match positions none/one/first/several. Oracles: every index at most once and below n, nothing after or concurrently "
                     "with the terminal signal, no overlap under non-parallel policies, value completion iff all indices were visited, done only "
                     "after a stop request; find_if result equals std::find_if and the predicate only sees addresses inside the range (any other "
-                    "dereference also trips the shadow memory)."),
+                    "dereference also trips the shadow memory). The parsched=1 batches add a harness scheduler that customises bulk_schedule and runs set_next on 2-3 threads concurrently under par/par_unseq (no scheduler of the library does), claiming indices in iteration-space order and testing the stop token before every claim: find_if(par) must still return the first match by position, every index is visited once, the terminal signal comes after the last set_next returned."),
         level_note=("Honest scope: this property is input-dominated; the simulator contributes the stop-mid-chunk timing, the worker "
                     "interleavings on the pool and the poisoned/red-zoned memory. indexed_for is not driven."),
         real=["bulk_schedule, bulk_transform, bulk_join", "find_if (sequential and parallel paths: let_value_with, let_value_with_stop_source, let_done)",
